@@ -69,10 +69,10 @@ CHECKS = {
             "command x parameter x wrong-kind matrix at a seeded position/order, through the real library and CLI "
             "routes on a simulated disk; acceptance predicate from a reference declaration table; event-trace ordering "
             "oracle (no execute, no write-open, no stdout, no file change before the rejection)",
-            "Fault enumeration: run i takes matrix cell i mod 772 (every built-in command x {unknown command, duplicate "
+            "Fault enumeration: run i takes matrix cell i mod 875 (every built-in command x {unknown command, duplicate "
             "result, each required parameter removed, undeclared parameter, parameter given twice, every wrong value "
             "kind per parameter kind, producer of the wrong output kind, fuzzy/non-fuzzy swap}, NetCDF and plug-in "
-            "cells); the quick tier visits every cell ~17 times, the thorough tier ~390 times, with seeded models, positions and textual orders. Each rejection must be the "
+            "cells); the quick tier visits every cell ~17 times, the thorough tier ~390 times (falsy wrong values 0 and "" for key/value parameters included), with seeded models, positions and textual orders. Each rejection must be the "
             "documented error naming the offender and must precede every side effect on the event trace; unfaulted "
             "twins must be accepted.",
             "Declaration table written from docs + statement is the acceptance oracle; SimFS stands in for the disk; "
